@@ -212,15 +212,42 @@ IntForeignCases(a) ==
           S \in UNION {{SupWhole(v), Sup(v, 0, 2), SupEmptyOn(v)} : v \in GridVariants(E4)}}
   ELSE {}
 
+\* size sweep inside the well-scaled region: n intervals of width 1/8 around the origin (|x| <= 4.2), every n of
+\* Domains!SweepSizes, so that whatever depends on the number of intervals (blocked or pairwise summation,
+\* a search that changes strategy) is crossed in the floating types too
+FpSweepGrid(n) == [i \in 1..(n + 1) |-> R(i - 1 - (n \div 2), 8)]
+FpSweepCases(n) ==
+  LET g == FpSweepGrid(n)
+      a == FpSpl(SupWhole(g), 2, 0)
+      a1 == FpSpl(SupWhole(g), 1, 1)
+      b == FpSpl(Sup(g, (n + 1) \div 2, n + 1), 1, 0)
+      xs == SetToSeq(SweepProbes(g))
+      fs == <<Factor(g)>>
+  IN {[op |-> "FpEval", a |-> a, xs |-> xs, E |-> [i \in DOMAIN xs |-> EvalI(a, xs[i])], S |-> [i \in DOMAIN xs |-> EvalAbs(a, xs[i])]]}
+     \cup {[op |-> "FpBin", a |-> a, b |-> y,
+            E |-> [add |-> AddI(a, y), sub |-> SubI(a, y), mul |-> MulI(a, y)],
+            S |-> [add |-> AddI(SplAbs(a), SplAbs(y)), sub |-> AddI(SplAbs(a), SplAbs(y)), mul |-> MulI(SplAbs(a), SplAbs(y))]] : y \in {a1, b}}
+     \cup {[op |-> "FpApply", ast |-> e, a |-> y, fs |-> fs,
+            E |-> [app |-> ApplyI(e, y, fs), lf |-> LinearI(e, y, fs)],
+            S |-> [app |-> ApplyAbs(e, y, fs), lf |-> LinearAbs(e, y, fs)]] : e \in {Id, Dn(1), Xn(1)}, y \in {a, b}}
+     \cup {[op |-> "FpBF", e1 |-> pr[1], e2 |-> pr[2], a |-> a, b |-> y, fs |-> fs,
+             E |-> BilinearI(pr[1], pr[2], a, y, fs), S |-> BilinearAbs(pr[1], pr[2], a, y, fs)] :
+              pr \in {<<Id, Id>>, <<Dn(1), Dn(1)>>, <<Xn(1), Id>>}, y \in {a1, b}}
+     \cup {[op |-> "FpInt", n |-> 3, w |-> <<ROne>>, a |-> a1, b |-> y, exact |-> 1,
+             E |-> WeightedVal(<<ROne>>, a1, y), S |-> WeightedAbs(<<ROne>>, a1, y)] : y \in {a1, b}}
+
 Init == \/ st = [ph |-> 0, kind |-> "x"]
+        \/ \E n \in SweepSizes : st = [ph |-> 0, kind |-> "sw", n |-> n]
         \/ st = [ph |-> 0, kind |-> "far"]
         \/ \E k \in FpKnots : st = [ph |-> 0, kind |-> "k", k |-> k]
         \/ \E g \in FpGrids : \E a \in SplsOn(g) : st = [ph |-> 0, kind |-> "a", a |-> a]
 Next == /\ st.ph = 0
-        /\ \E c \in (IF st.kind = "k" THEN GenCases(st.k) ELSE IF st.kind = "x" THEN GridSpecialCases ELSE IF st.kind = "far" THEN FarCases \cup NestCases ELSE SplCases(st.a) \cup IntForeignCases(st.a)) :
+        /\ \E c \in (IF st.kind = "sw" THEN FpSweepCases(st.n) ELSE IF st.kind = "k" THEN GenCases(st.k) ELSE IF st.kind = "x" THEN GridSpecialCases ELSE IF st.kind = "far" THEN FarCases \cup NestCases ELSE SplCases(st.a) \cup IntForeignCases(st.a)) :
               st' = [ph |-> 1, c |-> c]
 Spec == Init /\ [][Next]_st
-Emit == (st'.ph = 1) => CSVWrite("%1$s", <<ToJson(st'.c)>>, OutFile)
+\* the (long) records of one sweep size go to a file of their own: the successors of one state are written by one
+\* worker, and lines beyond 8 kB written by several workers to one file can interleave
+Emit == (st'.ph = 1) => CSVWrite("%1$s", <<ToJson(st'.c)>>, IF st.kind = "sw" THEN OutFile \o "." \o ToString(st.n) ELSE OutFile)
 
 -----------------------------------------------------------------------------
 \* S really is a magnitude: it dominates |E| coefficient by coefficient
